@@ -396,7 +396,7 @@ Ltac crack :=
 
 Lemma clos_grows rc s op : cl_ext (clos s) (clos (fst (step rc s op))).
 Proof.
-  destruct op as [name aliases want|name|eo0|eo0|id0 host sub|id0 choice|id0|id0|id0|id0]; simpl; unfold upsert, delete, upd_rq; crack;
+  destruct op as [name aliases want|name|eo0 ok0|eo0|id0 host sub|id0 choice|id0|id0|id0|id0]; simpl; unfold upsert, delete, upd_rq; crack;
     try apply cl_ext_refl; try apply cl_ext_app;
     apply cl_ext_map; intros x; match goal with |- context [cobj x =? ?o] => destruct (cobj x =? o) end; simpl; auto.
 Qed.
@@ -412,7 +412,7 @@ Qed.
 
 Lemma eps_grows rc s op : ep_ext (eps s) (eps (fst (step rc s op))).
 Proof.
-  destruct op as [name aliases want|name|eo0|eo0|id0 host sub|id0 choice|id0|id0|id0|id0]; simpl; unfold upsert, delete, upd_rq; crack;
+  destruct op as [name aliases want|name|eo0 ok0|eo0|id0 host sub|id0 choice|id0|id0|id0|id0]; simpl; unfold upsert, delete, upd_rq; crack;
     try apply ep_ext_refl; try apply ep_ext_app.
   - match goal with |- ep_ext _ (map (update_ep ?o ?sv) (map (drop_ep ?o ?w) _) ++ _) =>
       destruct (drop_ep_props o w) as [H1 [H2 [H3 H4]]];
@@ -481,7 +481,7 @@ Proof.
   intros Hf Hp.
   assert (Hsame : same_req r r) by (unfold same_req; tauto).
   assert (Hset : forall p, p <> PBefore -> same_req r (set_ph r p)) by (intros p Hq; unfold same_req; simpl; tauto).
-  destruct op as [name aliases want|name|eo0|eo0|id0 host sub|id0 choice|id0|id0|id0|id0]; simpl.
+  destruct op as [name aliases want|name|eo0 ok0|eo0|id0 host sub|id0 choice|id0|id0|id0|id0]; simpl.
   - exists r. split; [|exact Hsame]. unfold upsert. crack; exact Hf.
   - exists r. split; [|exact Hsame]. unfold delete. crack; exact Hf.
   - exists r. split; [|exact Hsame]. crack; exact Hf.
@@ -567,7 +567,7 @@ Proof. split; [constructor|intros e []]. Qed.
 Lemma wf_step rc s op : wf s -> wf (fst (step rc s op)).
 Proof.
   intros [Hnd Hlt].
-  destruct op as [name aliases want|name|eo0|eo0|id0 host sub|id0 choice|id0|id0|id0|id0]; simpl;
+  destruct op as [name aliases want|name|eo0 ok0|eo0|id0 host sub|id0 choice|id0|id0|id0|id0]; simpl;
     try (unfold upd_rq; crack; split; assumption).
   - unfold upsert. crack; try (split; assumption).
     + (* sync: drop + fresh *)
@@ -671,7 +671,7 @@ Qed.
 Lemma pp_step rc s op : pp_ok s -> pp_ok (fst (step rc s op)).
 Proof.
   intros Hp.
-  destruct op as [name aliases sv|name|eo0|eo0|id0 host sub|id0 choice|id0|id0|id0|id0]; simpl;
+  destruct op as [name aliases sv|name|eo0 ok0|eo0|id0 host sub|id0 choice|id0|id0|id0|id0]; simpl;
     try (unfold upd_rq; crack; exact Hp).
   - unfold upsert. crack; try exact Hp.
     + intros e He. simpl in He. apply in_app_or in He. destruct He as [He|He]; [|exact (fresh_parent _ _ _ _ _ He)].
